@@ -147,3 +147,67 @@ def _compare_arms(repo):
             + "def compareTestNames : List (String × String) := ["
             + ", ".join(f"({lean_str(n)}, {lean_str(a)})" for n, a in names) + "]")
     return {"arms": rows, "test_names": names}, lean
+
+
+# ------------------------------------------------------------------------------------------------
+# round 5: source facts behind the models of the tests odd / even / divisibleby, the int filter on
+# strings, f64_to_int, the exponent conversion of ops::pow and the Bool arm of i128::try_from(Value)
+@item("C08_FILTER_FACTS")
+def _filter_facts(repo):
+    tests = _strip_comments(read(repo, "minijinja/src/tests.rs"))
+    facts = {}
+    for name in ("odd", "even"):
+        b = fn_body(tests, r"pub fn is_%s\s*\(\s*v:\s*Value\s*\)\s*->\s*bool\s*\{" % name)
+        m = re.fullmatch(r"\s*i128::try_from\(v\)\.ok\(\)\.is_some_and\(\|x\|\s*x\s*%\s*2\s*(==|!=)\s*(\d+)\s*\)\s*", b)
+        if not m:
+            raise KeyError(f"tests::is_{name} is not `i128::try_from(v).ok().is_some_and(|x| x % 2 OP n)`")
+        facts[name] = (m.group(1), int(m.group(2)))
+    b = fn_body(tests, r"pub fn is_divisibleby\s*\([^)]*\)\s*->\s*bool\s*\{")
+    m = re.search(r"match\s+coerce\(\s*v\s*,\s*other\s*,\s*(true|false)\s*\)", b)
+    mi = re.search(r"CoerceResult::I128\(a,\s*b\)\)\s*=>\s*b\s*!=\s*0\s*&&\s*a\s*\.\s*(\w+)\(b\)\s*==\s*0\s*,", b)
+    mf = re.search(r"CoerceResult::F64\(a,\s*b\)\)\s*=>\s*\(a\s*%\s*b\)\s*==\s*0\.0\s*,", b)
+    if not (m and mi and mf):
+        raise KeyError("tests::is_divisibleby: coerce(v, other, <lossy>) / integer arm / float arm")
+    facts["divisibleby"] = (m.group(1), mi.group(1))
+    filters = _strip_comments(read(repo, "minijinja/src/filters.rs"))
+    f2i = fn_body(filters, r"fn f64_to_int\s*\(\s*v:\s*f64\s*\)\s*->\s*Result<Value,\s*Error>\s*\{")
+    lim = re.search(r"const\s+LIMIT:\s*f64\s*=\s*(\d+)\.0\s*;", f2i)
+    rng = re.search(r"if\s+truncated\s*(>=|>)\s*-LIMIT\s*&&\s*truncated\s*(<=|<)\s*LIMIT\s*\{\s*Ok\(Value::from\(truncated as i128\)\)", f2i)
+    if not (lim and rng and re.search(r"let\s+truncated\s*=\s*v\.trunc\(\)\s*;", f2i)):
+        raise KeyError("filters::f64_to_int: LIMIT / range test / truncation")
+    intf = fn_body(filters, r"pub fn int\s*\(\s*state:\s*&State\s*,\s*value:\s*&Value\s*\)\s*->\s*Result<Value,\s*Error>\s*\{")
+    sarm = intf[intf.index("ValueRepr::String(..) | ValueRepr::SmallStr(_) =>"):]
+    steps = re.findall(r"s\.parse::<(\w+)>\(\)|(is_integer_literal)\(s\)", sarm)
+    steps = [a or b for a, b in steps]
+    lit = fn_body(filters, r"fn is_integer_literal\s*\(\s*s:\s*&str\s*\)\s*->\s*bool\s*\{")
+    if not re.search(r"s\.strip_prefix\(\['\+',\s*'-'\]\)\.unwrap_or\(s\)", lit) or \
+            not re.search(r"!digits\.is_empty\(\)\s*&&\s*digits\.bytes\(\)\.all\(\|b\|\s*b\.is_ascii_digit\(\)\)", lit):
+        raise KeyError("filters::is_integer_literal: optional sign, then only ASCII digits")
+    if not re.search(r"ValueRepr::Bool\(x\)\s*=>\s*Ok\(Value::from\(\*x as u64\)\)", intf):
+        raise KeyError("filters::int on Bool")
+    ops = _strip_comments(read(repo, OPS))
+    powb = fn_body(ops, r"pub fn pow\s*\([^)]*\)\s*->\s*Result<Value,\s*Error>\s*\{")
+    if not re.search(r"match\s+TryFrom::try_from\(b\)\.ok\(\)\.and_then\(\|b\|\s*a\.checked_pow\(b\)\)", powb):
+        raise KeyError("ops::pow: exponent conversion `TryFrom::try_from(b).ok().and_then(|b| a.checked_pow(b))`")
+    unit = re.search(r"None\s+if\s+b\s*>\s*0\s*&&\s*\(-1\.\.=1\)\.contains\(&a\)\s*=>\s*\{\s*Ok\(int_as_value\(if\s+b\s*%\s*2\s*==\s*0\s*\{\s*a\s*\*\s*a\s*\}\s*else\s*\{\s*a\s*\}\)\)", powb)
+    if not unit:
+        raise KeyError("ops::pow: arm for the bases 0, 1, -1 with an exponent beyond u32")
+    arg = _strip_comments(read(repo, "minijinja/src/value/argtypes.rs"))
+    mac = fn_body(arg, r"macro_rules!\s*primitive_int_try_from\s*\{")
+    mb = re.search(r"ValueRepr::Bool\(val\)\s*=>\s*(val as \w+)\s*,", mac)
+    mfl = re.search(r"ValueRepr::F64\(val\)\s*if\s*\(val as i64 as f64 == val && val < i64::MAX as f64\)\s*=>\s*val as i64\s*,", mac)
+    if not (mb and mfl):
+        raise KeyError("primitive_int_try_from!: Bool arm / float arm")
+    negb = fn_body(ops, r"pub fn neg\s*\(\s*val:\s*&Value\s*\)\s*->\s*Result<Value,\s*Error>\s*\{")
+    if not re.search(r"if\s+val\.kind\(\)\s*==\s*ValueKind::Number\s*\{", negb):
+        raise KeyError("ops::neg: guarded by `val.kind() == ValueKind::Number`")
+    lean = ("def oddEvenTests : List (String × String × Nat) := ["
+            + ", ".join(f"({lean_str(n)}, {lean_str(facts[n][0])}, {facts[n][1]})" for n in ("odd", "even")) + "]\n"
+            + f"def divisiblebyLossy : Bool := {facts['divisibleby'][0]}\n"
+            + f"def divisiblebyIntMethod : String := {lean_str(facts['divisibleby'][1])}\n"
+            + f"def f64ToIntLimit : Nat := {int(lim.group(1))}\n"
+            + f"def f64ToIntRange : String × String := ({lean_str(rng.group(1))}, {lean_str(rng.group(2))})\n"
+            + "def intFilterStringSteps : List String := [" + ", ".join(lean_str(x) for x in steps) + "]\n"
+            + f"def boolAsInteger : String := {lean_str(mb.group(1))}")
+    return {"tests": facts, "limit": int(lim.group(1)), "range": [rng.group(1), rng.group(2)], "steps": steps,
+            "bool": mb.group(1)}, lean
